@@ -4,6 +4,7 @@ import (
 	"github.com/ipld/go-ipld-prime"
 	"github.com/ipld/go-ipld-prime/codec/dagjson"
 	"strings"
+	"unicode/utf8"
 
 	"github.com/ipld/go-ipld-prime/node/basicnode"
 	"github.com/ucan-wg/go-ucan/pkg/policy"
@@ -12,7 +13,7 @@ import (
 func init() {
 	register(stream{
 		name: "glob",
-		rule: "every (pattern, string) pair over the alphabet {a,b,*,\\} with |pattern| ≤ N and |string| ≤ N (N=4 quick, 5 thorough), evaluated through policy.Like + Policy.Match on a string node, plus random longer pairs and multi-byte UTF-8. Added later: every statement is also matched as decoded from its own IPLD and DAG-JSON form, and again on the first object after it matched other strings. Non-trivial = the pattern contains a wildcard or an escape. Distinct = distinct protocol lines.",
+		rule: "every (pattern, string) pair over the alphabet {a,b,*,\\} with |pattern| ≤ N and |string| ≤ N (N=4 quick, 5 thorough), evaluated through policy.Like + Policy.Match on a string node, plus random longer pairs and multi-byte UTF-8. Added later: every statement is also matched as decoded from its own IPLD and DAG-JSON form, and again on the first object after it matched other strings. Every pair over the bytes {0xff,0xfe,0xe2,0x82,0xac,*} up to length 3 (bytes that are not UTF-8, one character taken apart) plus the replacement character: the match is on bytes (no DAG-JSON leg for patterns that are not UTF-8). Non-trivial = the pattern contains a wildcard or an escape. Distinct = distinct protocol lines.",
 		run:  runGlobStream,
 		eval: evalGlob,
 		cmp: func(line, g, m string) string {
@@ -48,7 +49,8 @@ func goLike(p, s string) string {
 		} else {
 			return "roundtrip: built policy does not decode"
 		}
-		if js, err := ipld.Encode(nd, dagjson.Encode); err == nil {
+		// (JSON text cannot carry bytes that are not UTF-8: such a pattern has no DAG-JSON form to compare with)
+		if js, err := ipld.Encode(nd, dagjson.Encode); err == nil && utf8.ValidString(p) {
 			if p3, err := policy.FromDagJson(string(js)); err == nil {
 				if ok3, _ := p3.Match(n); ok3 != ok {
 					return "roundtrip: built=" + bstr(ok) + " dagjson=" + bstr(ok3)
@@ -86,8 +88,23 @@ func runGlobStream(c *ctx) error {
 				func(g string) []string { return []string{"like:" + g} })
 		}
 	}
+	// bytes that are not UTF-8, the replacement character, and the three bytes of one character taken apart: the match is on
+	// BYTES (0xff ≠ 0xfe ≠ U+FFFD; a wildcard may stand for part of a character)
+	{
+		var pats, subjects []string
+		allStrings("\xff\xfe\xe2\x82\xac*", 3, func(s string) { pats = append(pats, s) })
+		allStrings("\xff\xfe\xe2\x82\xac", 3, func(s string) { subjects = append(subjects, s) })
+		subjects = append(subjects, "\uFFFD", "id-\xfe-1", "id-\uFFFD", "\xe2\x82\xac", "a\xffb")
+		pats = append(pats, "\uFFFD", "id-\xff*", "id-\xff", "\xe2*\xac", "*\xff*", "a\\\xffb")
+		for _, p := range pats {
+			for _, s := range subjects {
+				c.emitG("glob.like "+hxs(p)+" "+hxs(s), "glob.Match", func(string) bool { return strings.ContainsAny(p, "*\\") },
+					func(g string) []string { return []string{"like-bytes:" + g} })
+			}
+		}
+	}
 	// random longer pairs, built so that matches are likely: derive the string from the pattern
-	alpha := []string{"a", "b", "c", "*", "\\", "é", "日"}
+	alpha := []string{"a", "b", "c", "*", "\\", "é", "日", "\xff", "\xfe", "\uFFFD"}
 	for i := 0; i < 20000; i++ {
 		var pb, sb strings.Builder
 		l := c.rng.Intn(10)
